@@ -13,6 +13,9 @@ Streams (see RULE):
   workflow  real prepare_workflow on generated specs vs model; oracle: planted references are
             dependencies, bad order is reported not ready (and nothing runs), named Logic is watched
   rf / ft   watch lists of prepare_resource_function / prepare_function_test
+  watch     Workflow / ResourceFunction / FunctionTest definitions through the REAL cache.prepare_and_cache:
+            registry subscriptions contain every named resource; the definition's preparer runs again when a
+            named resource appears / changes / disappears, also after delete + immediate re-offer of the definition
 """
 from __future__ import annotations
 
@@ -33,7 +36,9 @@ RULE = ("CEL expressions are generated as lark-shaped trees by random derivation
         "refSwitch.switchOn referring to earlier, later, unknown labels or the step itself, with ref / refSwitch "
         "Logic that is cached, unhealthy, missing or malformed. A case is non-trivial when it contains a planted "
         "reference below the root of its expression or (workflows) at least two steps with a reference; distinct "
-        "by content.")
+        "by content. Watch stream: 8 definitions (ref, two refs, refSwitch with 3 cases, sub-workflow, 1 and 2 "
+        "overlayRef functions, FunctionTest of a VF / RF) x fixed and random scripts of appear / change / "
+        "disappear of the named resources and delete+re-offer of the definition, through the real cache.")
 ASSUMPTIONS = [
     "the trees handed to the extractor are the ones cel-python 0.3.0 / lark 0.12 build from cel.lark "
     "(cel_tree_wf; re-validated against the real parser on every generated and corpus expression)",
@@ -1336,6 +1341,240 @@ def check_ft(ctx, spec, kind, name, cases_ok, inputs_ok):
     return case, f"CFT {cs(kind)} {cs(name)} {cbool(cases_ok)} {cbool(inputs_ok)} {o}"
 
 
+# --------------------------------------------------------------------------------------------
+# end-to-end watch stream: the reported watch list, CONSUMED by the real cache / registry
+# --------------------------------------------------------------------------------------------
+
+W_SPECS = {   # the resources a definition can name: (kind, name) -> spec (version n is patched in)
+    ("ValueFunction", "w-fn-a"): lambda n: {"return": {"v": n}},
+    ("ValueFunction", "w-fn-b"): lambda n: {"return": {"v": n, "b": True}},
+    ("ValueFunction", "w-fn-c"): lambda n: {"return": {"c": n}},
+    ("ResourceFunction", "w-rf"): lambda n: {
+        "apiConfig": {"apiVersion": "v1", "kind": "ConfigMap", "name": "=inputs.name", "namespace": "default"},
+        "resource": {"data": {"k": f"v{n}"}}},
+    ("Workflow", "w-sub"): lambda n: {
+        "steps": [{"label": "only", "ref": {"kind": "ValueFunction", "name": "w-fn-c"}, "inputs": {"n": n}}]},
+}
+
+W_DEFINITIONS = {   # name -> (kind of the definition, spec, the resources it names)
+    "wf-ref": ("Workflow", {"steps": [{"label": "one", "ref": {"kind": "ValueFunction", "name": "w-fn-a"}}]},
+               [("ValueFunction", "w-fn-a")]),
+    "wf-two": ("Workflow", {"steps": [
+        {"label": "one", "ref": {"kind": "ValueFunction", "name": "w-fn-a"}},
+        {"label": "two", "ref": {"kind": "ResourceFunction", "name": "w-rf"}, "inputs": {"name": "=steps.one.v"}}]},
+        [("ValueFunction", "w-fn-a"), ("ResourceFunction", "w-rf")]),
+    "wf-switch": ("Workflow", {"steps": [{"label": "switch", "refSwitch": {"switchOn": "=parent.kind", "cases": [
+        {"case": "a", "kind": "ValueFunction", "name": "w-fn-a"},
+        {"case": "b", "kind": "ValueFunction", "name": "w-fn-b", "default": True},
+        {"case": "r", "kind": "ResourceFunction", "name": "w-rf"}]}}]},
+        [("ValueFunction", "w-fn-a"), ("ValueFunction", "w-fn-b"), ("ResourceFunction", "w-rf")]),
+    "wf-sub": ("Workflow", {"steps": [{"label": "sub", "ref": {"kind": "Workflow", "name": "w-sub"}}]},
+               [("Workflow", "w-sub")]),
+    "rf-one": ("ResourceFunction", {
+        "apiConfig": {"apiVersion": "v1", "kind": "ConfigMap", "name": "=inputs.name", "namespace": "default"},
+        "resource": {"data": {"base": "yes"}},
+        "overlays": [{"overlayRef": {"kind": "ValueFunction", "name": "w-fn-a"}}]},
+        [("ValueFunction", "w-fn-a")]),
+    "rf-two": ("ResourceFunction", {
+        "apiConfig": {"apiVersion": "v1", "kind": "ConfigMap", "name": "=inputs.name", "namespace": "default"},
+        "resource": {"data": {"base": "yes"}},
+        "overlays": [{"overlay": {"data": {"inline": "yes"}}},
+                     {"overlayRef": {"kind": "ValueFunction", "name": "w-fn-a"}, "skipIf": "=inputs.skip"},
+                     {"overlayRef": {"kind": "ValueFunction", "name": "w-fn-b"}}]},
+        [("ValueFunction", "w-fn-a"), ("ValueFunction", "w-fn-b")]),
+    "ft-vf": ("FunctionTest", {"functionRef": {"kind": "ValueFunction", "name": "w-fn-a"},
+                               "testCases": [{"expectOutcome": {"ok": {}}}]},
+              [("ValueFunction", "w-fn-a")]),
+    "ft-rf": ("FunctionTest", {"functionRef": {"kind": "ResourceFunction", "name": "w-rf"}, "inputs": {"name": "n"},
+                               "testCases": [{"expectOutcome": {"ok": {}}}]},
+              [("ResourceFunction", "w-rf")]),
+}
+
+
+def _classes():
+    from koreo.value_function.prepare import prepare_value_function
+    from koreo.value_function.structure import ValueFunction
+    from koreo.resource_function.prepare import prepare_resource_function
+    from koreo.resource_function.structure import ResourceFunction
+    from koreo.workflow.prepare import prepare_workflow
+    from koreo.workflow.structure import Workflow
+    from koreo.function_test.prepare import prepare_function_test
+    from koreo.function_test.structure import FunctionTest
+    return {"ValueFunction": (ValueFunction, prepare_value_function),
+            "ResourceFunction": (ResourceFunction, prepare_resource_function),
+            "Workflow": (Workflow, prepare_workflow),
+            "FunctionTest": (FunctionTest, prepare_function_test)}
+
+
+async def _settle(n=12):
+    for _ in range(n):
+        await asyncio.sleep(0)
+
+
+async def _reset_world():
+    """empty cache + registry, inside the loop, letting cancelled re-preparers finish first"""
+    from koreo import cache
+    cache._reset_cache()
+    await _settle(6)
+    cache._REPREPARE_TASKS.clear()
+    cache._PREPARE_TIMES.clear()
+    cache._reset_cache()
+
+
+async def _watch_scenario(defn, initial, events):
+    """drive the real cache.  Returns a list of problems (dicts); empty = the property held."""
+    from koreo import cache, registry
+    cls = _classes()
+    kind, spec, named = W_DEFINITIONS[defn]
+    dcls, dprep = cls[kind]
+    dres = registry.Resource(resource_type=dcls, name="w-definition")
+    runs = {"n": 0, "watched": None}
+    versions = {}
+    problems = []
+
+    async def counting_preparer(cache_key, spec_):
+        runs["n"] += 1
+        out = await dprep(cache_key, spec_)
+        try:
+            _, watched = out
+            runs["watched"] = sorted((r.resource_type.__name__, r.name) for r in (watched or ()))
+        except TypeError:
+            runs["watched"] = None
+        return out
+
+    async def offer(res):
+        rcls, rprep = cls[res[0]]
+        versions[res] = versions.get(res, 0) + 1
+        await cache.prepare_and_cache(rcls, rprep, {"name": res[1], "resourceVersion": str(versions[res])},
+                                      W_SPECS[res](versions[res]))
+
+    async def delete(res):
+        await cache.delete_from_cache(resource_class=cls[res[0]][0], cache_key=res[1])
+
+    dver = {"n": 0}
+
+    async def offer_definition():
+        dver["n"] += 1
+        await cache.prepare_and_cache(dcls, counting_preparer, {"name": "w-definition",
+                                                                "resourceVersion": str(dver["n"])},
+                                      copy.deepcopy(spec))
+
+    def subscriptions():
+        subs = registry._SUBSCRIBER_RESOURCES.get(dres, set())
+        return sorted((r.resource_type.__name__, r.name) for r in subs)
+
+    def check_subscriptions(stage):
+        subs = subscriptions()
+        missing = [list(r) for r in named if tuple(r) not in [tuple(x) for x in subs]]
+        if missing:
+            problems.append({"stage": stage, "problem": "named resource is not subscribed to in the registry",
+                             "missing": missing, "subscriptions": subs, "preparer_reported": runs["watched"]})
+
+    await _reset_world()
+    for res in initial:
+        await offer(tuple(res))
+    await offer_definition()
+    await _settle()
+    check_subscriptions("after the first prepare")
+    cached = {tuple(r) for r in initial}
+    for i, ev in enumerate(events):
+        op, res = ev[0], tuple(ev[1]) if len(ev) > 1 and ev[1] else None
+        stage = f"event {i}: {op} {res[1] if res else ''}".strip()
+        before = runs["n"]
+        if op == "redefine":              # delete the definition and offer it again back-to-back
+            await cache.delete_from_cache(resource_class=dcls, cache_key="w-definition")
+            await offer_definition()
+            await _settle()
+            if runs["n"] <= before:
+                problems.append({"stage": stage, "problem": "re-offered definition was not prepared"})
+            check_subscriptions(stage)
+            continue
+        if op in ("appear", "change"):
+            if op == "appear" and res in cached or op == "change" and res not in cached:
+                continue
+            await offer(res)
+            cached.add(res)
+        elif op == "disappear":
+            if res not in cached:
+                continue
+            await delete(res)
+            cached.discard(res)
+        await _settle()
+        if runs["n"] <= before:
+            problems.append({"stage": stage,
+                             "problem": f"definition was not prepared again after a named resource did {op}",
+                             "subscriptions": subscriptions()})
+        check_subscriptions(stage)
+    await _reset_world()
+    return problems
+
+
+def run_watch(defn, initial, events):
+    return loop().run_until_complete(_watch_scenario(defn, initial, events))
+
+
+def watch_signature(defn, problems):
+    kind = W_DEFINITIONS[defn][0]
+    p = problems[0]["problem"]
+    p = "named resource is not subscribed" if p.startswith("named resource") else (
+        "not prepared again when a named resource appears/changes/disappears" if "prepared again" in p else p)
+    return f"watch: {kind}: {p}"
+
+
+def check_watch(ctx, defn, initial, events):
+    case = {"kind": "watch", "definition": defn, "initial": [list(r) for r in initial],
+            "events": [[e[0], list(e[1]) if len(e) > 1 and e[1] else None] for e in events]}
+    try:
+        problems = run_watch(defn, initial, events)
+    except Exception as e:  # noqa: BLE001
+        ctx.fail(Failure(signature=f"watch: {W_DEFINITIONS[defn][0]}: raises {type(e).__name__}", what=repr(e), case=case))
+        return
+    ctx.note_case(case, nontrivial=len(events) >= 2)
+    ctx.count(f"watch:{W_DEFINITIONS[defn][0]}")
+    for e in events:
+        ctx.count(f"watch:event:{e[0]}")
+    if problems:
+        sig = watch_signature(defn, problems)
+
+        def still(evs):
+            try:
+                ps = run_watch(defn, initial, evs)
+            except Exception:  # noqa: BLE001
+                return False
+            return bool(ps) and watch_signature(defn, ps) == sig
+        small = shrink_list(list(events), still)
+        small_problems = run_watch(defn, initial, small)
+        ctx.fail(Failure(signature=sig, what=f"{defn}: {small_problems[0]['stage']}: {small_problems[0]['problem']}",
+                         case={**case, "events": [[e[0], list(e[1]) if len(e) > 1 and e[1] else None] for e in small]},
+                         observed=small_problems[:4],
+                         expected="every named resource subscribed; preparer runs again after each event"))
+
+
+def watch_cases(rng, n_random):
+    """fixed scripts for every definition, then random ones"""
+    for defn, (_, _, named) in W_DEFINITIONS.items():
+        first = named[0]
+        # nothing cached yet: appear, change, disappear, appear again; then the same after delete + re-offer
+        script = [("appear", r) for r in named] + [("change", first), ("disappear", first), ("appear", first)]
+        yield defn, [], script
+        yield defn, [], [("redefine", None)] + script
+        # everything cached first
+        yield defn, list(named), [("change", r) for r in named] + [("redefine", None)] + \
+            [("change", first), ("disappear", first), ("appear", first)]
+    defs = list(W_DEFINITIONS)
+    for _ in range(n_random):
+        defn = rng.choice(defs)
+        named = W_DEFINITIONS[defn][2]
+        initial = [r for r in named if rng.random() < 0.5]
+        events = []
+        for _ in range(rng.randint(2, 7)):
+            if rng.random() < 0.2:
+                events.append(("redefine", None))
+            else:
+                events.append((rng.choice(["appear", "change", "disappear", "change", "appear"]), rng.choice(named)))
+        yield defn, initial, events
+
+
 REGEX_HEADS = ["steps", "steps.", "stepsX", "steps_", "step", "Steps.", "xsteps.", "steps\n", "stepsé", "steps[",
                "parent", "parent.", "parentX", "parents.", "paren", "parent\n", "parenté", "inputs.", ""]
 REGEX_ALPHA = list("ab_1") + [".", ".", "[", "]", "\n", "é", "'", " ", "-", "x"]
@@ -1453,6 +1692,10 @@ def run(ctx: Ctx):
         for i in range(60 if q else 400):
             add(misc_cases, misc_terms, check_ft(ctx, *gen_ft(rng)))
 
+        # -- the watch list as consumed by the real cache/registry (empties the cache: keep last)
+        for defn, initial, events in watch_cases(rng, 40 if q else 600):
+            check_watch(ctx, defn, initial, events)
+
         if ctx.model_ok:
             correspond(ctx, "extract_argument_structure + name regexes on real parse trees vs Extract.extract",
                        ex_cases, ex_terms)
@@ -1482,6 +1725,9 @@ def replay(ctx: Ctx, data):
             r = check_rf(ctx, case["spec"], case["rest_ok"])
         elif case.get("kind") == "ft":
             r = check_ft(ctx, case["spec"], case["fn"][0], case["fn"][1], case["cases_ok"], case["inputs_ok"])
+        elif case.get("kind") == "watch":
+            check_watch(ctx, case["definition"], [tuple(r) for r in case["initial"]],
+                        [(e[0], tuple(e[1]) if e[1] else None) for e in case["events"]])
         if r and ctx.model_ok:
             ctx.correspond("replay", "Corr_C14", [r[0]], [r[1]])
     finally:
